@@ -186,6 +186,7 @@ pub struct Opts {
     pub with_capacity: usize,
     pub tracked: bool,
     pub clone_bisim: bool,
+    pub post_pulls: bool,
     pub keep: usize,
 }
 
@@ -202,6 +203,9 @@ pub struct Ctx<'a> {
     pub opts: &'a Opts,
     pub detable: &'a DeTable,
     pub bundle_idx: u64,
+    /// per worker: the arena of the previously processed bundle (any payload type), used as a
+    /// non-fresh destination for clone_from
+    pub scratch: &'a std::cell::RefCell<Option<indextree::Arena<u32>>>,
 }
 
 /// Progress marker read by the watchdog.
@@ -378,6 +382,43 @@ fn pulls_of_slot<P: Payload + Clone>(st: &mut Stats, ctx: &Ctx, b: &Bundle, pref
                 }
                 if got != want {
                     st.violation(keep, Finding { prop: "C10".into(), kind: format!("pulls:{}", which), detail: format!("{} from slot {} under pull word {} yields {:?} expected {:?} (forward iteration yields {:?})", which, slot, w, got, want, fwd), case: case_json(b, prefix, None, json!({"word": w, "want": want}), json!(got)) });
+                }
+            }
+        }
+    }
+}
+
+fn post_pulls<P: Payload + Clone>(st: &mut Stats, ctx: &Ctx, b: &Bundle, prefix: &Option<Vec<Call>>, c: &Call, f: &Sim<P>) {
+    let keep = ctx.opts.keep;
+    let n = f.arena.count();
+    let limit = n + 1;
+    let words = ["B", "FB", "BF", "BBF", "FFBB", "BFBFB", "BBBBBBBB"];
+    for slot in 1..=n {
+        if f.arena[f.id(slot)].is_removed() {
+            continue;
+        }
+        let real = f.observe(slot, limit);
+        for (which, fwd) in [("kids", &real.kids), ("prec", &real.prec), ("foll", &real.foll)] {
+            if fwd.len() >= limit {
+                continue;
+            }
+            st.check("C10", 1);
+            st.pull_checks += 1;
+            let r = f.reversed(which, slot, limit);
+            let mut want: Vec<i64> = fwd.clone();
+            want.reverse();
+            if r != want {
+                st.violation(keep, Finding { prop: "C10".into(), kind: format!("post:rev:{}", which), detail: format!("after {}(a={}, b={}): {}.rev() from slot {} yields {:?}, forward iteration yields {:?}", c.op, c.a, c.b, which, slot, r, fwd), case: case_json(b, prefix, Some(c), json!(want), json!(r)) });
+            }
+            for w in words {
+                st.pull_checks += 1;
+                let got = f.pulls(which, slot, w);
+                // the deque on the forward sequence (same rule as Observers!Pulls; table rows exist for short sequences)
+                let want: Option<Vec<i64>> = ctx.detable.get(&fwd.len()).and_then(|rows| rows.iter().find(|(ww, _)| ww == w).map(|(_, pos)| pos.iter().map(|p| if *p == 0 { 0 } else { fwd[*p - 1] }).collect()));
+                if let Some(want) = want {
+                    if got != want {
+                        st.violation(keep, Finding { prop: "C10".into(), kind: format!("post:pulls:{}", which), detail: format!("after {}(a={}, b={}): {} from slot {} under pull word {} yields {:?} expected {:?}", c.op, c.a, c.b, which, slot, w, got, want), case: case_json(b, prefix, Some(c), json!(want), json!(got)) });
+                    }
                 }
             }
         }
@@ -689,6 +730,11 @@ fn run_bundle<P: Payload + Clone>(ctx: &Ctx, b: &Bundle, prefix: &Option<Vec<Cal
                 // the effect: if the crate failed where it must not (or vice versa) the effect
                 // comparison would only repeat the same finding under another name
                 let class_ok = allowed.contains(&d.class);
+                if class_ok && ctx.opts.post_pulls && !failed {
+                    // C10 in the state AFTER the call (larger shapes are not bundle states themselves): rev() and
+                    // a few pull words of every live node against the deque oracle on its own forward sequence
+                    post_pulls(st, ctx, b, prefix, &c, &f);
+                }
                 if class_ok {
                     let got = compare_post(st, keep, b, prefix, &c, &base, fcap, &f, &d, &o.post, o.new, o.cap_keep, prop_of_op(&c.op));
                     if got != base || failed {
@@ -729,6 +775,22 @@ fn run_bundle<P: Payload + Clone>(ctx: &Ctx, b: &Bundle, prefix: &Option<Vec<Cal
     // C13: determinism - the same path on a second new arena gives an equal arena and the same ids
     if prefix.is_none() {
         st.check("C13", 2);
+        // clone_from onto a destination with an unrelated earlier content (the previous bundle's arena on
+        // this worker) must give an arena equal to the source as well
+        if ctx.opts.clone_bisim {
+            if let Some(su) = (&sim as &dyn std::any::Any).downcast_ref::<Sim<u32>>() {
+                st.check("C13", 1);
+                let dst_opt = ctx.scratch.borrow_mut().take();
+                let mut dst = dst_opt.unwrap_or_else(indextree::Arena::new);
+                dst.clone_from(&su.arena);
+                let d = Sim { arena: dst, ids: su.ids.clone(), toks: su.toks.clone(), issued: su.issued.clone() };
+                let same = std::panic::catch_unwind(std::panic::AssertUnwindSafe(|| d.arena == su.arena && d.proj() == su.proj() && d.drain() == su.drain())).unwrap_or(false);
+                if !same {
+                    st.violation(keep, Finding { prop: "C13".into(), kind: "clone_from-not-equal".into(), detail: "dst.clone_from(&arena) onto a used destination gives an arena that differs from the source (==, links, payloads or reusable slots)".into(), case: case_json(b, prefix, None, json!(su.proj()), json!(d.proj())) });
+                }
+                *ctx.scratch.borrow_mut() = Some(d.arena);
+            }
+        }
         // a clone compares equal to its original, and has the same reusable slots
         let cl = sim.fork();
         if cl.arena != sim.arena || cl.drain() != sim.drain() || cl.proj() != sim.proj() {
@@ -856,6 +918,7 @@ pub fn run(input: &str, out: &str, states_out: &str, detable_path: &str, opts: O
                 .stack_size(64 << 20)
                 .spawn(move || {
                     let mut st = Stats::default();
+                    let scratch: std::cell::RefCell<Option<indextree::Arena<u32>>> = std::cell::RefCell::new(None);
                     loop {
                         let item = {
                             let g = rx.lock().unwrap();
@@ -868,7 +931,7 @@ pub fn run(input: &str, out: &str, states_out: &str, detable_path: &str, opts: O
                         *prog.line.lock().unwrap() = Some(line.clone());
                         prog.bundle_idx.store(idx, Ordering::Relaxed);
                         prog.busy.store(true, Ordering::SeqCst);
-                        let ctx = Ctx { opts: &opts, detable: &detable, bundle_idx: idx };
+                        let ctx = Ctx { opts: &opts, detable: &detable, bundle_idx: idx, scratch: &scratch };
                         // the harness' own reads can only panic on a corrupted arena: that is a finding
                         let r = std::panic::catch_unwind(std::panic::AssertUnwindSafe(|| {
                             if opts.tracked {
